@@ -7,7 +7,7 @@ EXTENDS Integers, Sequences, TLC
 CONSTANTS Templates, Names, MaxPorts
 \* template facts the abstract clauses depend on (kept in step with the harness catalogue by a self-test)
 DescIsEBB == {"mac_named", "unnamed", "desc_only"}
-IdIsEBB == {"mac_named", "unnamed", "win_ser", "win_snr", "vidpid_only"}
+IdIsEBB == {"mac_named", "unnamed", "win_ser", "win_snr", "vidpid_only", "win_ser_end"}
 VARIABLES ports, phase
 vars == <<ports, phase>>
 Init == ports = <<>> /\ phase = "add"
